@@ -47,6 +47,9 @@ structure Arg where
   signed : Bool     -- Type.Type == TInt
   cint   : Nat      -- ConstInt() of a constant (shift count, slice bound); else 0
   hash   : Nat := 0 -- Value.HashCode() % len(walloc.hash): the allocator's bucket
+  mpa    : Bool := false      -- constant whose ConstValue is an *mpa.Int
+  own    : Nat := 0           -- ... its own size (mpa.Int.TypeSize())
+  vbits  : List Bool := []    -- ... its own bits Value.Bit(0 .. own-1)
   deriving DecidableEq, Repr, Inhabited
 
 structure Step where
@@ -257,13 +260,23 @@ def getId (w : Array Nat) (i : Nat) (pad : Nat) : Nat := w.getD i pad
 
 def lastD (w : Array Nat) (pad : Nat) : Nat := if w.size > 0 then w.getD (w.size - 1) pad else pad
 
-/-- The wires of one input value (with the "const values are cast to
-different value sizes" padding of `Program.Stream`). -/
+/-- The wires of one input value, with the "const values are cast to
+different value sizes" adaptation of `Program.Stream`: an `*mpa.Int` constant
+used at a width other than the one its wires were allocated for gets the
+`{zero}` / `{one}` wire per bit of its OWN value, signed constants extended
+from their own size (since b2bd1e4, as `Program.Circuit`); anything else is
+padded from the allocated wires.  `{one}` is allocated right after `{zero}`. -/
 def inputWires (st : WAlloc) (zw : Nat) (a : Arg) : WAlloc × Array Nat :=
   let (st, w) := st.assignedIDs a.hash a.key a.bits
   if w.size != a.bits then
-    let pad := if a.signed && w.size > 0 then lastD w zw else zw
-    (st, (Array.range a.bits).map fun b => getId w b pad)
+    if a.const && a.mpa then
+      let o := min a.own a.bits
+      (st, (Array.range a.bits).map fun b =>
+        let src := if o ≤ b && a.signed then o - 1 else b
+        if decide (src < o) && a.vbits.getD src false then zw + 1 else zw)
+    else
+      let pad := if a.signed && w.size > 0 then lastD w zw else zw
+      (st, (Array.range a.bits).map fun b => getId w b pad)
   else (st, w)
 
 def allInputWires (zw : Nat) : List Arg → WAlloc → WAlloc × List (Array Nat)
@@ -403,5 +416,29 @@ def streamTrace (inputs : List InputDef) (consts : List ConstDef) (steps : List 
     (zk : Nat × Nat := (1000000, 1000000)) (ok : Nat × Nat := (1000001, 1000001)) : WAlloc × Trace :=
   let (st, zw, tr) := initAlloc inputs consts zk ok
   streamSteps zw steps 0 st tr
+
+/-! ## Constants used at a second width
+
+Constants are shared by name; `DefineConstants` allocates wires for the FIRST
+instance.  When the same constant is used at another width the wires are
+adapted.  Between 3c18dfa and b2bd1e4 the two modes differed: `Program.Circuit` took the
+bits from the constant's own value (extending signed constants from the
+constant's own size) while `Program.Stream` still adapted the first instance's
+wires.  Since b2bd1e4 both use `padFromOwn` (`inputWires` above). -/
+
+/-- `Program.Stream` BEFORE b2bd1e4: the bit VALUES carried by the wires padded
+from the first instance. -/
+def padFromFirst (w : List Bool) (signed : Bool) (bits : Nat) : List Bool :=
+  (List.range bits).map fun b =>
+    if b < w.length then w.getD b false
+    else if signed && decide (w.length > 0) then w.getD (w.length - 1) false else false
+
+/-- `Program.Circuit` since 3c18dfa and `Program.Stream` since b2bd1e4: `v` are the bits of the constant's own
+value, `own` its own size. -/
+def padFromOwn (v : List Bool) (own : Nat) (signed : Bool) (bits : Nat) : List Bool :=
+  let o := min own bits
+  (List.range bits).map fun b =>
+    let src := if o ≤ b && signed then o - 1 else b
+    decide (src < o) && v.getD src false
 
 end Mpc.Gc
